@@ -107,6 +107,10 @@ func main() {
 		defer d.Close()
 		e := e7.New(d)
 		defer e.Close()
+		if *replay != "" {
+			// a replayed history races for real: repeat its concurrent part (different sleeps)
+			e.Trials = 120
+		}
 		if *out != "" {
 			e.CurFile = *out + ".cur"
 			defer os.Remove(e.CurFile)
